@@ -109,6 +109,7 @@ Definition classes (Sc : schema) (D : document) (sp : response) (m_errs : list g
   (if abstract_frag then ["abstract-type-condition"] else []) ++
   (if doc_has (fun s => negb (Nat.eqb (List.length (sel_dirs s)) 0)) D then ["skip-include"] else []) ++
   (if existsb (is_sym "c04-cycle-bypass") flags then ["c04-cycle-bypass"] else []) ++
+  (if existsb (is_sym "unvalidated") flags then ["unvalidated-but-doc-ok"] else []) ++
   (if existsb (is_sym "exhaustive") flags then ["exhaustive-family"] else []) ++
   (if existsb (is_sym "leaf-family") flags then ["leaf-coercion-family"] else []) ++
   (if errs && (propagated || multi || short) then ["nontrivial"] else []).
@@ -124,7 +125,16 @@ Definition check (c : sexp) : sexp :=
               let fuel := default_fuel D in
               if negb (type_names_okb Sc) then v_bad "type-name-with-zero-byte"
               else if negb (doc_positions_okb D) then v_oracle_fail "parser-positions-not-distinct" []
-              else if negb (doc_ok Sc D E fuel fuel) then v_oracle_fail "validated-document-not-doc-ok" []
+              else if negb (doc_ok Sc D E fuel fuel) then
+                (* outside the property: only a document handed over without validation may get
+                   here; the executor model is still compared (blank keys, panics) *)
+                if existsb (is_sym "unvalidated") flags then
+                  match run fixed Sc D E fuel W with
+                  | OutOfFuel => v_bad "out-of-fuel"
+                  | m => if agrees m obs then v_ok ["unvalidated-not-doc-ok"]
+                         else v_mismatch "response-unvalidated" [tag "model" [of_run m]]
+                  end
+                else v_oracle_fail "validated-document-not-doc-ok" []
               else
                 let sp := exec_spec Sc D E fuel W in
                 match oracle sp obs with
